@@ -39,13 +39,18 @@ var evalProcessCh = make(chan evalReq, 100)
 func evalRoutines() {
 	for i := 0; i < runtime.NumCPU(); i++ {
 		go func() {
+			wid := verifID()
+			verifEv("w.idle", wid, 0, 0)
 			var i int
 			var p v3.Vec
 			for r := range evalProcessCh {
+				verifEv("w.recv", wid, len(r.out), len(r.p))
 				for i, p = range r.p {
 					r.out[i] = r.fn(p)
 				}
+				verifEv("w.done", wid, len(r.out), len(r.p))
 				r.wg.Done()
+				verifEv("w.idle", wid, 0, 0)
 			}
 		}()
 	}
@@ -103,6 +108,7 @@ func (l *layerYZ) Evaluate(s sdf.SDF3, x int) {
 			eReq.p = append(eReq.p, p)
 			if len(eReq.p) == batchSize {
 				eReq.wg.Add(1)
+				verifEv("ev.send", x, len(eReq.out), len(eReq.p))
 				evalProcessCh <- eReq
 				eReq.out = eReq.out[batchSize:]       // shift the output slice for processing
 				eReq.p = make([]v3.Vec, 0, batchSize) // create a new slice for the next batch
@@ -115,11 +121,14 @@ func (l *layerYZ) Evaluate(s sdf.SDF3, x int) {
 	// send any remaining points for processing
 	if len(eReq.p) > 0 {
 		eReq.wg.Add(1)
+		verifEv("ev.send", x, len(eReq.out), len(eReq.p))
 		evalProcessCh <- eReq
 	}
 
 	// Wait for all processing to complete before returning
+	verifEv("ev.wait", x, len(l.val1), 0)
 	eReq.wg.Wait()
+	verifEv("ev.waited", x, len(l.val1), 0)
 }
 
 func (l *layerYZ) Get(x, y, z int) float64 {
@@ -141,6 +150,7 @@ func marchingCubes(s sdf.SDF3, box sdf.Box3, step float64, output sdf.Triangle3W
 
 	// start the evaluation routines
 	evalRoutines()
+	verifEv("mc.start", steps.X, steps.Y, steps.Z)
 
 	// create the SDF layer cache
 	l := newLayerYZ(base, inc, steps)
